@@ -344,7 +344,36 @@ def state_oracle(game) -> List[str]:
             want = ("RUNNING",) if on else ("STOPPED", "CLOSED")
             if st not in want:
                 bad.append(f"software-state {node.config.hostname} {name} {st} node_on={on}")
+            # a kill-chain / attack stage is not declarable in the file: when the scenario is loaded it is the class's initial member
+            # (loading must not have executed - or "completed" - an attack)
+            for field, info in getattr(type(sw), "model_fields", {}).items():
+                if "stage" in field and info.default is not None and hasattr(info.default, "name"):
+                    cur = getattr(sw, field, info.default)
+                    if cur != info.default:
+                        bad.append(f"kill-chain-stage:{name}:{field} {node.config.hostname} built={getattr(cur, 'name', cur)} "
+                                   f"initial={info.default.name}")
     return bad
+
+
+RED_APPLICATIONS = ("dos-bot", "data-manipulation-bot", "ransomware-script", "c2-beacon", "c2-server", "nmap")
+
+
+def software_states(game) -> Dict[str, str]:
+    """host:software -> canonical text of the software's own state (describe_state + every `*stage*` field), uuids masked."""
+    import re as _re
+    out = {}
+    for node in game.simulation.network.nodes.values():
+        for name, sw in node.software_manager.software.items():
+            try:
+                d = sw.describe_state()
+            except Exception as e:
+                d = {"describe_state raises": type(e).__name__}
+            for field in getattr(type(sw), "model_fields", {}):
+                if "stage" in field:
+                    d["." + field] = str(getattr(sw, field, None))
+            out[f"{node.config.hostname}:{name}"] = _re.sub(r"[0-9a-f]{8}-[0-9a-f]{4}-[0-9a-f]{4}-[0-9a-f]{4}-[0-9a-f]{12}", "<uuid>",
+                                                            json.dumps(d, sort_keys=True, default=str))
+    return out
 
 
 def options_oracle(game, cfg: Dict) -> List[str]:
@@ -370,6 +399,17 @@ def options_oracle(game, cfg: Dict) -> List[str]:
     return bad
 
 
+_AGENT_DEFAULTS: Optional[Dict] = None
+
+
+def _agent_defaults() -> Dict:
+    global _AGENT_DEFAULTS
+    if _AGENT_DEFAULTS is None:
+        from harness.extract import config_agents
+        _AGENT_DEFAULTS = config_agents.agent_settings_defaults()
+    return _AGENT_DEFAULTS
+
+
 def agents_oracle(game, cfg: Dict) -> List[str]:
     """Parts of `agents:` that are outside the Lean model, as declared-vs-built facts: a `custom` observation space is built with
     exactly the declared component labels (and its gym space has exactly those keys); every declared `shared-reward` component
@@ -385,6 +425,15 @@ def agents_oracle(game, cfg: Dict) -> List[str]:
         if ag is None:
             bad.append(f"agents missing {a.get('ref')}")
             continue
+        # settings the file LEAVES OUT: the built agent has the default the schema source states (read by `ast`, config_agents)
+        dflts = _agent_defaults().get(a.get("type"), {})
+        given = a.get("agent_settings") or {}
+        for k, dv in dflts.items():
+            if k in given or dv == "<non-literal>":
+                continue
+            bv = getattr(ag.config.agent_settings, k, "<no-such-field>")
+            if not (bv == dv and type(bv) is type(dv)):
+                bad.append(f"agents setting-default {a['ref']} {k} built={bv!r} schema-default={dv!r}")
         ob = a.get("observation_space") or {}
         if ob.get("type") == "custom":
             want = [c.get("label") for c in (ob.get("options") or {}).get("components") or []]
@@ -403,6 +452,24 @@ def agents_oracle(game, cfg: Dict) -> List[str]:
                     bad.append(f"agents shared-reward {a['ref']} {i} built={getattr(comp.config, 'agent_name', None)} declared={tgt}")
                 if not callable(getattr(comp, "callback", None)):
                     bad.append(f"agents shared-reward-callback {a['ref']} {i} unset")
+                else:
+                    # WHOSE reward the component yields: every agent's current reward is set to a distinct sentinel, the component
+                    # (as `calculate` calls it) must give the sentinel of the DECLARED agent; the rewards are put back afterwards
+                    saved = {r: x.reward_function.current_reward for r, x in game.agents.items()}
+                    try:
+                        for j, (r, x) in enumerate(game.agents.items()):
+                            x.reward_function.current_reward = 1000.0 + j
+                        want_v = 1000.0 + list(game.agents).index(tgt) if tgt in game.agents else None
+                        try:
+                            got_v = comp.callback(comp.config.agent_name)
+                        except Exception as e:
+                            got_v = f"raises {type(e).__name__}"
+                        if want_v is not None and got_v != want_v:
+                            whose = next((r for j, r in enumerate(game.agents) if got_v == 1000.0 + j), got_v)
+                            bad.append(f"agents shared-reward-source {a['ref']} {i} yields the reward of {whose}, declared {tgt}")
+                    finally:
+                        for r, x in game.agents.items():
+                            x.reward_function.current_reward = saved[r]
                 if order and tgt in order and a["ref"] in order and order.index(tgt) > order.index(a["ref"]):
                     bad.append(f"agents shared-reward-order {a['ref']} evaluated before {tgt}")
     return bad
